@@ -25,7 +25,7 @@ func init() {
 	subcommands["c05worker"] = c05Worker
 }
 
-const mimeVnd = "application/jsonl" // a custom registration whose name contains a built-in one
+const mimeVnd = "application/jsonL" // a custom registration whose name contains a built-in one and has an upper-case letter
 
 // absRange is one abstract media range of an Accept header.
 type absRange struct {
@@ -210,7 +210,7 @@ func judgeMultiLine(produces []string, accept string, registered map[string]bool
 		switch {
 		case !admitted && o.Status == 406:
 			return ""
-		case admitted && o.Status == 200 && o.CT == want && decodes(o.CT, o.Body):
+		case admitted && o.Status == 200 && strings.EqualFold(o.CT, want) && decodes(o.CT, o.Body):
 			return ""
 		case admitted:
 			wants = append(wants, "200 "+want)
@@ -254,7 +254,7 @@ func judgeC05(produces []string, accept string, registered map[string]bool, keys
 	if o.Status == 406 {
 		return "the router admitted the request on Accept grounds but the entity writer answered 406", o.key()
 	}
-	if o.CT != want {
+	if !strings.EqualFold(o.CT, want) { // (media type names are case-insensitive: a normalised spelling is the same type)
 		return fmt.Sprintf("Content-Type %q, expected %q (Produces %v)", o.CT, want, produces), o.key()
 	}
 	if !decodes(o.CT, o.Body) {
@@ -405,13 +405,26 @@ func c05Worker(args []string) {
 	restful.DefaultResponseContentType(def)
 	registered := map[string]bool{restful.MIME_JSON: true, restful.MIME_XML: true}
 	keys := []string{restful.MIME_JSON, restful.MIME_XML}
+	var res c05Result
 	if vnd {
+		// the routes have already served entity requests when the custom writer is registered:
+		// every container answers five requests first (answers not judged - what a route produces
+		// but cannot yet be written is the business of the run without the registration)
+		for _, produces := range c05ProducesLists(vnd) {
+			for _, accept := range []string{"", "*/*", restful.MIME_JSON, restful.MIME_XML, mimeVnd} {
+				for _, v := range []string{"x", "y", "z"} {
+					c05Variant = v
+					c05Do(produces, accept, nil)
+					res.Dispatches++
+				}
+			}
+		}
+		c05Variant = "x"
 		restful.RegisterEntityAccessor(mimeVnd, restful.NewEntityAccessorJSON(mimeVnd))
 		registered[mimeVnd] = true
 		keys = append(keys, mimeVnd)
 	}
 	sort.Strings(keys)
-	var res c05Result
 	headers := c05Headers(tier)
 	for _, produces := range c05ProducesLists(vnd) {
 		for hi, hd := range headers {
@@ -625,6 +638,6 @@ func checkC05(run *h.Run) {
 			run.Cov["unowned_map_ranges"] = rep["unowned_map_ranges"]
 		}
 	}
-	run.Cov["rule"] = "E1 on the instrumented build (map iteration order owned): Produces = every non-empty duplicate-free sequence over {json, xml, vnd (custom registration)} x Accept = every header of 0-2 abstract media ranges over {*/*, json, xml, vnd, text/plain} x q {absent, 0.5, 0.8; thorough also 0.1, 1} x extra parameter {none, before q, after q}, 3 ranges over a reduced alphabet, and long headers of 13-20 ranges with two tied candidates at varying positions; each abstract header is rendered in all 64 optional-whitespace styles around ',' ';' '='; x DefaultResponseMimeType {unset, json, xml} x registered-writer set (separate worker processes). Oracles: Content-Type = reference choice and the body decodes with it; all renderings of one abstract header agree; never 406 when the router admitted; whenever the accessor lookup reaches its map range every iteration order is enumerated and must agree. Distinct non-trivial = abstract (Produces, header) pairs."
+	run.Cov["rule"] = "E1 on the instrumented build (map iteration order owned): Produces = every non-empty duplicate-free sequence over {json, xml, vnd (custom registration)} x Accept = every header of 0-2 abstract media ranges over {*/*, json, xml, vnd, text/plain} x q {absent, 0.5, 0.8; thorough also 0.1, 1} x extra parameter {none, before q, after q}, 3 ranges over a reduced alphabet, and long headers of 13-20 ranges with two tied candidates at varying positions; each abstract header is rendered in all 64 optional-whitespace styles around ',' ';' '='; x DefaultResponseMimeType {unset, json, xml} x registered-writer set (separate worker processes; the custom writer - its name has an upper-case letter - is registered after every route has already served five entity requests). Oracles: Content-Type = reference choice and the body decodes with it; all renderings of one abstract header agree; never 406 when the router admitted; whenever the accessor lookup reaches its map range every iteration order is enumerated and must agree. Distinct non-trivial = abstract (Produces, header) pairs."
 	run.Assume = []string{"reference: q default 1, stable order by q, */* = first Produces entry with a writer", "media-range wildcards type/*, q=0 and HTAB are outside the alphabet"}
 }
